@@ -176,7 +176,7 @@ func (c *foldChecker) expect(v any) string {
 
 // H_DriverFold (C15): Base.Render folds the tree bottom-up with exactly the supplied functions.
 func H_DriverFold() {
-	t := genTree(rtParam("D"), allOps, leafForms())
+	t := genTree(rtParam("D"), treeOps(), leafForms())
 	text := printNode(t, 0, &printOpts{})
 	rtObserve("text", text)
 	e, err := lucene.Parse(text)
@@ -225,7 +225,7 @@ func H_DriverFold() {
 
 // H_UnsupportedOps (C15, last clause): fuzzy and boost anywhere make both renderers fail.
 func H_UnsupportedOps() {
-	t := genTree(rtParam("D"), allOps, leafForms())
+	t := genTree(rtParam("D"), treeOps(), leafForms())
 	if countKind(t, nBoost)+countKind(t, nFuzzy) == 0 {
 		rtAssume(false)
 		return
